@@ -1216,26 +1216,19 @@ nomem:
  **********************************************************************/
 
 /*
- * parse_and_descend: parse the expression and descend down the tree
- *   @parser:  address of caller-allocated parser state structure
+ * descend: descend down the tree following the parsed expression
+ *   @parser:  parser state structure filled in by parse
  *   @rootptr: address of property data root
  *   @set:     force the tree to conform to the indicated expression
- *   @format:  printf-like format string forming the property expression
- *   @ap       variable argument pointer
+ *
+ * On error, frees the parser state and returns NULL.
  */
-static vnaproperty_t **parse_and_descend(parser_t *parser,
-	vnaproperty_t **rootptr, bool set, const char *format, va_list ap)
+static vnaproperty_t **descend(parser_t *parser,
+	vnaproperty_t **rootptr, bool set)
 {
     vnaproperty_t **anchor = rootptr;
     vnaproperty_t *node = *anchor;
     vnaproperty_t *collection = NULL;
-
-    /*
-     * Parse the expression.
-     */
-    if (parse(parser, format, ap) == -1) {
-	return NULL;
-    }
 
     /*
      * Following the expression list, walk down the tree.
@@ -1376,6 +1369,23 @@ static vnaproperty_t **parse_and_descend(parser_t *parser,
 error:
     parser_free(parser);
     return NULL;
+}
+
+/*
+ * parse_and_descend: parse the expression and descend down the tree
+ *   @parser:  address of caller-allocated parser state structure
+ *   @rootptr: address of property data root
+ *   @set:     force the tree to conform to the indicated expression
+ *   @format:  printf-like format string forming the property expression
+ *   @ap       variable argument pointer
+ */
+static vnaproperty_t **parse_and_descend(parser_t *parser,
+	vnaproperty_t **rootptr, bool set, const char *format, va_list ap)
+{
+    if (parse(parser, format, ap) == -1) {
+	return NULL;
+    }
+    return descend(parser, rootptr, set);
 }
 
 /*
@@ -1606,13 +1616,14 @@ int vnaproperty_vset(vnaproperty_t **rootptr, const char *format, va_list ap)
     vnaproperty_t *value = NULL;
     int rv = -1;
 
-    if ((anchor = parse_and_descend(&parser, rootptr, /*set*/true,
-		    format, ap)) == NULL) {
+    if (parse(&parser, format, ap) == -1) {
 	return -1;
     }
 
     /*
-     * Make sure we're not trying to assign to a map or list.
+     * Make sure we're not trying to assign to a map or list, and
+     * that a value follows.  Test before descending so that a refused
+     * call doesn't modify the tree.
      */
     switch (parser.prs_tail->ex_type) {
     case E_MAP_ELEMENT:
@@ -1628,26 +1639,24 @@ int vnaproperty_vset(vnaproperty_t **rootptr, const char *format, va_list ap)
 	errno = EINVAL;
 	goto out;
     }
+    if (scanner->scn_token != T_ASSIGN && scanner->scn_token != T_HASH) {
+	errno = EINVAL;
+	goto out;
+    }
+    if ((anchor = descend(&parser, rootptr, /*set*/true)) == NULL) {
+	return -1;
+    }
 
     /*
      * Get the value to assign.
      *   foo=text	set foo to a scalar with given text
      *   foo#		set foo to null
      */
-    switch (scanner->scn_token) {
-    case T_ASSIGN:
+    if (scanner->scn_token == T_ASSIGN) {
 	value = scalar_alloc(scanner->scn_position);
 	if (value == NULL) {
 	    goto out;
 	}
-	break;
-
-    case T_HASH:
-	break;
-
-    default:
-	errno = EINVAL;
-	goto out;
     }
 
     /*
@@ -1765,21 +1774,22 @@ vnaproperty_t **vnaproperty_vset_subtree(vnaproperty_t **rootptr,
     scanner_t *scanner = &parser.prs_scn;
     vnaproperty_t **anchor;
 
-    if ((anchor = parse_and_descend(&parser, rootptr,
-		    /*set*/true, format, ap)) == NULL) {
+    if (parse(&parser, format, ap) == -1) {
 	return NULL;
     }
 
     /*
-     * Make sure there are no unexpected trailing tokens.
+     * Make sure there are no unexpected trailing tokens.  Test before
+     * descending so that a refused call doesn't modify the tree.
      */
     if (scanner->scn_token != T_EOF) {
 	errno = EINVAL;
-	anchor = NULL;
-	goto out;
+	parser_free(&parser);
+	return NULL;
     }
-
-out:
+    if ((anchor = descend(&parser, rootptr, /*set*/true)) == NULL) {
+	return NULL;
+    }
     parser_free(&parser);
     return anchor;
 }
